@@ -61,3 +61,7 @@ Definition conc_obs (c : cfg) (script : list cop) (tr : list (tid * mode)) : obs
 (* udf used by the harness: x -> x + add, raising on the listed values *)
 Definition udf (add : nat) (bad : list nat) (x : nat) : option nat :=
   if existsb (Nat.eqb x) bad then None else Some (x + add).
+
+(* the same with falsy results: on the listed values the real map_fn returns None (observed as item 0) *)
+Definition udfn (add : nat) (bad nones : list nat) (x : nat) : option nat :=
+  if existsb (Nat.eqb x) bad then None else if existsb (Nat.eqb x) nones then Some 0 else Some (x + add).
